@@ -591,6 +591,90 @@ func runC20(c *runCtx) {
 			c.rep.Sample(map[string]any{"id": clipS(w.Id), "param_bytes": len(w.Data), "headers": w.Headers, "tags": w.Tags, "timeout": w.Timeout, "via": map[bool]string{true: "http", false: "grpc"}[viaHTTP]})
 		}
 	}
+	// ---- bursts: several routed promises created at once, so that one dispatch cycle hands several messages
+	// to the transport back to back (messages are queued by the transport and written to the stream later).
+	// Every message received must be well-formed and be the message of exactly one task and counter.
+	bursts := 32
+	if c.tier == "thorough" {
+		bursts = 480
+	}
+	for b := 0; b < bursts; b++ {
+		if b%c.nshards != c.shard {
+			continue
+		}
+		r := rand.New(rand.NewSource(vh.Mix(c.seed, "c20burst", b)))
+		lb := listen(srv.pollAddr, fmt.Sprintf("burst%d", b), "w")
+		k := 4 + r.Intn(8)
+		want := map[string][]byte{} // task id -> param data
+		var wg sync.WaitGroup
+		var mu sync.Mutex
+		for j := 0; j < k; j++ {
+			id := fmt.Sprintf("burst.%d.%d.%s", b, j, genId(r, 1+r.Intn(3), "b"))
+			data := genBytes(r)
+			if len(data) > 4096 {
+				data = data[:4096]
+			}
+			wg.Add(1)
+			go func() {
+				defer wg.Done()
+				rp := srv.JSON("POST", "/promises", nil, map[string]any{"id": id, "param": valueJSON(nil, data), "timeout": time.Now().UnixMilli() + 3600_000,
+					"tags": map[string]string{"resonate:invoke": fmt.Sprintf("poll://burst%d/w", b)}})
+				if rp.Err == nil && rp.Status == 201 {
+					mu.Lock()
+					want["__invoke:"+id] = data
+					mu.Unlock()
+				}
+			}()
+		}
+		wg.Wait()
+		deadline := time.Now().Add(3 * time.Second)
+		seen := map[string]int{}
+		judged := 0
+		for time.Now().Before(deadline) {
+			msgs := lb.all()
+			for _, m := range msgs[judged:] {
+				judged++
+				c.rep.Events++
+				var msg struct {
+					Type string `json:"type"`
+					Task struct {
+						Id      string `json:"id"`
+						Counter int    `json:"counter"`
+					} `json:"task"`
+					Href map[string]string `json:"href"`
+				}
+				if err := json.Unmarshal([]byte(m), &msg); err != nil {
+					c.violate("burst:message-malformed", fmt.Sprintf("burst %d: a message received on the stream is not well-formed JSON (%v): %s", b, err, clipS(m)), map[string]any{"burst": b})
+					continue
+				}
+				if _, ok := want[msg.Task.Id]; !ok {
+					c.violate("burst:message-for-unknown-task", fmt.Sprintf("burst %d: received a message naming task %q which no promise of this group has", b, clipS(msg.Task.Id)), map[string]any{"burst": b})
+					continue
+				}
+				key := fmt.Sprintf("%s/%d", msg.Task.Id, msg.Task.Counter)
+				seen[key]++
+				if seen[key] == 2 {
+					c.violate("burst:message-duplicated", fmt.Sprintf("burst %d: the message of task %s counter %d was received twice (%d promises created at once; another task's message is missing or was overwritten)", b, clipS(msg.Task.Id), msg.Task.Counter, k), map[string]any{"burst": b})
+				}
+				if !strings.HasSuffix(msg.Href["claim"], "/tasks/claim/"+msg.Task.Id+"/"+fmt.Sprint(msg.Task.Counter)) {
+					c.violate("burst:href", fmt.Sprintf("burst %d: claim href %q does not belong to task %s counter %d", b, clipS(msg.Href["claim"]), clipS(msg.Task.Id), msg.Task.Counter), map[string]any{"burst": b})
+				}
+			}
+			first := 0
+			for id := range want {
+				if seen[id+"/1"] > 0 {
+					first++
+				}
+			}
+			if first == len(want) {
+				break
+			}
+			time.Sleep(50 * time.Millisecond)
+		}
+		c.rep.Hit("bursts")
+		c.rep.HitN("burst-messages-judged", judged)
+		lb.stop()
+	}
 	// ---- after a restart everything must still read back exactly
 	lst.stop()
 	srv.Kill()
